@@ -475,6 +475,17 @@ def check_reject_mat(case, ctx):
             return
     must_reject(ctx, "reject/DCM", lambda: DCM(M.copy()), {"kind": kind})
     must_reject(ctx, "reject/Quaternion(dcm=)", lambda: ahrs.Quaternion(dcm=M.copy()), {"kind": kind})
+    # the same non-rotation as an object of the matrix class: array arithmetic on a valid DCM (2*R, -R, R + E) yields DCM-typed results that were
+    # never validated - a constructor given one must judge the values, not the type
+    if M.shape == (3, 3) and not np.iscomplexobj(M) and M.dtype.kind == "f":
+        def typed():
+            D = DCM(case.p["R"].copy())
+            return D + (M - np.asarray(D))
+        t_ = call(typed)
+        if t_.ok and isinstance(t_.value, DCM) and np.array_equal(np.asarray(t_.value), M, equal_nan=True):
+            must_reject(ctx, "reject/Quaternion(dcm=)", lambda: ahrs.Quaternion(dcm=typed()), {"kind": kind + " [DCM-typed]"})
+            must_reject(ctx, "reject/DCM", lambda: DCM(typed()), {"kind": kind + " [DCM-typed]"})
+            must_reject(ctx, "reject/QuaternionArray", lambda: ahrs.QuaternionArray(DCM=np.array([np.asarray(typed())])), {"kind": kind + " [one-matrix stack]"})
 
 
 def check_accept_mat(case, ctx):
